@@ -26,6 +26,8 @@ TU = "scriptplan/_cython/time_utils_cy.pyx"
 MP = "scriptplan/parser/macro_processor.py"
 
 MUTANTS = [
+    # ------------------------------------------------------------------ revert of repaired defect F50 (C09)
+    ("c09_alap_anchor_follows_horizon", "C09", [(TS, "                    latest_end = getattr(self.project, \"declaredEnd\", None) or self.project[\"end\"]", "                    latest_end = self.project[\"end\"]")]),
     # ------------------------------------------------------------------ reverts of repaired defect F48 (C02)
     ("c02_shift_leaves_not_consulted", "C02", [(RS, "            for leave in shift.get(\"leaves\", self.scenarioIdx) or []:\n                if hasattr(leave, \"interval\") and leave.interval and leave.interval.start <= date < leave.interval.end:\n                    return False\n\n", "")]),
     # ------------------------------------------------------------------ revert of repaired defect F47 (C02)
